@@ -192,6 +192,16 @@ type Event struct {
 	Names  []string `json:"names"`
 	Types  []string `json:"types"`  // cadence type IDs of the field values' declared types
 	Values []string `json:"values"` // cadence String() forms
+	Dyn    []string `json:"dyn,omitempty"` // observed events only: type IDs of the values' own (dynamic) types
+}
+
+// TypeID converts a declared type as written in source ("Int?", "String") to the
+// canonical type ID ("(Int)?", "String").
+func TypeID(decl string) string {
+	if strings.HasSuffix(decl, "?") {
+		return "(" + TypeID(strings.TrimSuffix(decl, "?")) + ")?"
+	}
+	return decl
 }
 
 func (e Event) String() string {
@@ -236,7 +246,7 @@ func (u *Universe) resEvents(r *Val) []Event {
 	ev := Event{Type: rt.EventTypeID()}
 	for _, p := range rt.Ev {
 		ev.Names = append(ev.Names, p.Name)
-		ev.Types = append(ev.Types, p.Type)
+		ev.Types = append(ev.Types, TypeID(p.Type))
 		ev.Values = append(ev.Values, p.eval(r))
 	}
 	return append(out, ev)
@@ -250,7 +260,7 @@ func (u *Universe) attEvent(a *Att, base *Val) (Event, bool) {
 	ev := Event{Type: at.EventTypeID()}
 	for _, p := range at.Ev {
 		ev.Names = append(ev.Names, p.Name)
-		ev.Types = append(ev.Types, p.Type)
+		ev.Types = append(ev.Types, TypeID(p.Type))
 		ev.Values = append(ev.Values, p.evalAtt(a, base))
 	}
 	return ev, true
